@@ -34,10 +34,12 @@ func init() {
 					}
 					cdcnmon.RunC11Exhaustive(c, idx)
 				}},
-			{Name: "derivations/random", Count: core.FixedCount(30000, 400000), BlockIsViolation: true, CPULimit: 60,
+			{Name: "derivations/random", Count: core.FixedCount(12000, 400000), BlockIsViolation: true, CPULimit: 60,
 				Run: func(c *core.Ctx, idx int) { cdcnmon.RunC11Random(c, idx) }},
 			{Name: "derivations/race-detector-sample", Count: core.FixedCount(3000, 60000), Race: true, MaxWorkers: 8, CPULimit: 120,
 				Run: func(c *core.Ctx, idx int) { cdcnmon.RunC11Race(c) }},
+			{Name: "derivations/reused-notation", Count: core.FixedCount(5000, 150000), BlockIsViolation: true,
+				Run: func(c *core.Ctx, idx int) { cdcnmon.RunReusedNotation(c, "C11") }},
 			{Name: "literals/unrepresentable", Count: core.FixedCount(cdcnmon.C11RejectCases(), cdcnmon.C11RejectCases()), Exhaustive: true, Run: cdcnmon.RunC11Reject, BlockIsViolation: true},
 		},
 	})
